@@ -72,6 +72,13 @@ FrameDecode ==
   /\ results' = results @@ (tick :> [buf |-> Reader, view |-> TRUE])
   /\ tick' = tick + 1 /\ touched' = {} /\ UNCHANGED bufs
 
+\* the caller lets go of a result (nothing refers to it any more)
+Forget(r) ==
+  /\ r \in DOMAIN results
+  /\ results' = [q \in DOMAIN results \ {r} |-> results[q]]
+  /\ bufs' = IF results[r].view THEN bufs ELSE [b \in DOMAIN bufs \ {results[r].buf} |-> bufs[b]]
+  /\ touched' = {} /\ UNCHANGED tick
+
 \* the results whose content a step changed
 Changed == { r \in DOMAIN results : r \in DOMAIN results' /\ bufs'[results'[r].buf].val # bufs[results[r].buf].val }
 
